@@ -41,6 +41,7 @@ type c09Case struct {
 	Sched      uint64 `json:"sched"`
 	Run        int    `json:"run"`
 	StructBase bool   `json:"struct_base,omitempty"` // the shared base template was filled with struct data before the concurrent phase
+	Plain      bool   `json:"plain,omitempty"`       // engines without node processors, with component shorthand tags registered
 	Focus      string `json:"focus,omitempty"` // name of the program half of all calls render ("" = none): every program is hammered against itself in some run
 }
 
@@ -188,7 +189,7 @@ func init() {
 
 func (p *c09) ID() string { return "C09" }
 func (p *c09) Rule() string {
-	return "case = one short run on one shared engine: N in {2,4,8,16} goroutines released by a barrier onto a cold (or pre-warmed) engine, each rendering ~25 programs of the shared catalogue (all features incl. failing programs) plus per-iteration previously unseen expressions and dotted paths, through Vue.Render/RenderFragment on one Vue or New()/Load().Fill().Render/RenderFile/RenderString on one base Template, with private or one shared read-only data value; failpoints at the engine's hook points inject seeded yields/sleeps and rendezvous (two goroutines enter the same cache window together); 'lin' runs add 2 editors rewriting page/component files underneath 6 renderers and record a history checked by porcupine; every call's bytes+error are compared with the call run alone; race-detector reports are collected per worker; non-trivial = run in which >=2 goroutines overlapped; distinct by (run configuration, observed interleaving signature at the cache points)"
+	return "case = one short run on one shared engine: N in {2,4,8,16} goroutines released by a barrier onto a cold (or pre-warmed) engine, the engine set up either with the LESS node processor or (every third run) without any node processor and with component shorthand tags registered (WithComponents / RegisterComponent), each rendering ~25 programs of the shared catalogue (all features incl. failing programs) plus per-iteration previously unseen expressions and dotted paths, through Vue.Render/RenderFragment on one Vue or New()/Load().Fill().Render/RenderFile/RenderString on one base Template, with private or one shared read-only data value; failpoints at the engine's hook points inject seeded yields/sleeps and rendezvous (two goroutines enter the same cache window together); 'lin' runs add 2 editors rewriting page/component files underneath 6 renderers and record a history checked by porcupine; every call's bytes+error are compared with the call run alone; race-detector reports are collected per worker; non-trivial = run in which >=2 goroutines overlapped; distinct by (run configuration, observed interleaving signature at the cache points)"
 }
 
 func (p *c09) Plan(ctx core.Ctx) int { return ctx.Pick(320, 3000) }
@@ -204,7 +205,10 @@ func (p *c09) Gen(ctx core.Ctx, i int) any {
 	c.Kind = "stress"
 	c.Mode = []string{"vue", "template", "mixed"}[r.Intn(3)]
 	c.StructBase = r.Chance(1, 3)
-	if i%4 != 3 {
+	c.Plain = i%3 == 1
+	if c.Plain && i%2 == 1 {
+		c.Focus = "shorthand-components"
+	} else if i%4 != 3 {
 		// rotate the focus through the catalogue (i advances by 1, lin runs take every 5th slot)
 		c.Focus = p.progs[(i-i/5)%len(p.progs)].Name
 	}
@@ -243,7 +247,14 @@ func (p *c09) Exec(ctx core.Ctx, cc any) core.Obs {
 	var o core.Obs
 	files := CatFS(p.progs, nil)
 	fsys := memFS(files)
-	eng := newCatEngine(fsys)
+	mkEngine := newCatEngine
+	if c.Plain {
+		mkEngine = newCatEnginePlain
+		o.Cell("engine/no-processors+shorthand-components")
+	} else {
+		o.Cell("engine/less-processor")
+	}
+	eng := mkEngine(fsys)
 	if c.StructBase {
 		// site-wide settings given as a struct to the long-lived base template: every
 		// Load / New / RenderString of the concurrent phase starts from that shared stack
@@ -405,7 +416,7 @@ func (p *c09) Exec(ctx core.Ctx, cc any) core.Obs {
 			}
 			ref, ok := solo[key]
 			if !ok {
-				soloEng := newCatEngine(fsys)
+				soloEng := mkEngine(fsys)
 				if c.StructBase {
 					soloEng.base = soloEng.base.Fill(&c09SiteCfg{SiteName: "site", Build: 7, Flags: []string{"x"}, Inner: &c09SiteCfg{SiteName: "inner"}})
 				}
